@@ -194,6 +194,56 @@ fn candle_grid(h: &mut H) {
 	h.run.enum_block("Candle/grid 12^5 x prev_close 12", total * n as u64, total, true, serde_json::json!("0.5,3,0.5,2,1 ; prev_close 2"), sink.into_violations());
 }
 
+/// candles whose high, low and close are a few units in the last place apart, at several price levels:
+/// every difference of the documented formulas is then exact, so the helpers must return the correctly
+/// rounded quotient (a re-associated formula that rounds at the price level is off by the whole spread)
+fn narrow_candles(h: &mut H) {
+	let sink = VioSink::new(SYS);
+	let up = |x: V, k: u32| {
+		let mut y = x;
+		for _ in 0..k {
+			y = V::from_bits(y.to_bits() + 1);
+		}
+		y
+	};
+	let offs: [u32; 7] = [0, 1, 2, 3, 7, 64, 1001];
+	let mut cases = 0u64;
+	for base in [1.25 as V, 100.1, 3.0e5, 0.001, 1.0, 2.0, 16777215.0] {
+		for &lo in &offs {
+			for &hi in &offs {
+				for &cl in &offs {
+					for &op in &[lo, hi] {
+						if !(lo <= cl && cl <= hi && lo <= op && op <= hi) {
+							continue;
+						}
+						cases += 1;
+						let c = Candle { open: up(base, op), high: up(base, hi), low: up(base, lo), close: up(base, cl), volume: 3.0 };
+						let (hh, ll, cc) = (c.high as f64, c.low as f64, c.close as f64);
+						let got = c.clv() as f64;
+						let want = if hh == ll { 0.0 } else { ((cc - ll) - (hh - cc)) / (hh - ll) };
+						if (got - want).abs() > 4.0 * eps() * want.abs() + 1e-300 || !(-1.0..=1.0).contains(&got) {
+							sink.push("clv/narrow-candle", show(&c), format!("clv = {got:e}, the exactly evaluated formula gives {want:e}"));
+						}
+						if !c.validate() {
+							sink.push("validate/narrow-candle", show(&c), "a valid candle is rejected".into());
+						}
+						let tp = c.tp() as f64;
+						if !(ll - 2.0 * eps() * ll <= tp && tp <= hh + 2.0 * eps() * hh) {
+							sink.push("tp/narrow-candle", show(&c), format!("tp = {tp:e} outside [low, high]"));
+						}
+						let prev = up(base, cl);
+						let tr = c.tr_close(prev) as f64;
+						if (tr - (hh - ll)).abs() > 4.0 * eps() * (hh - ll) {
+							sink.push("tr/narrow-candle", show(&c), format!("tr = {tr:e}, high - low = {:e}", hh - ll));
+						}
+					}
+				}
+			}
+		}
+	}
+	h.run.enum_block("Candle/narrow candles (ulp spreads at 7 price levels)", cases, cases, true, serde_json::json!("1.25, 1.25+3ulp, 1.25, 1.25"), sink.into_violations());
+}
+
 fn zeq(a: V, b: V) -> bool {
 	(a.is_nan() && b.is_nan()) || a == b
 }
@@ -671,6 +721,7 @@ fn main() {
 		h.finish();
 	}
 	candle_grid(&mut h);
+	narrow_candles(&mut h);
 	add_assoc(&mut h, thorough);
 	candle_eq(&mut h);
 	text_sources(&mut h);
